@@ -1,8 +1,8 @@
 package rules
 
 import (
-	"go/types"
 	"go/token"
+	"go/types"
 	"strings"
 
 	"golang.org/x/tools/go/ssa"
@@ -197,21 +197,24 @@ func R15Socks(c *Ctx) {
 	td := c.P.Func(PkgAgent, "Agent.TaskDispatch")
 	if td != nil {
 		n := 0
-		EachCall(td, func(call ssa.CallInstruction) {
-			name := CalleeName(call)
-			if name != "Havoc/pkg/socks.SendConnectSuccess" && name != "Havoc/pkg/socks.SendConnectFailure" {
-				return
-			}
-			n++
-			a := call.Common().Args
-			k := len(a)
-			ok := DerivesFrom(a[k-3], IsFieldLoad(PkgAgent+".SocksClient", "ATYP")) && DerivesFrom(a[k-2], IsFieldLoad(PkgAgent+".SocksClient", "IpDomain")) && DerivesFrom(a[k-1], IsFieldLoad(PkgAgent+".SocksClient", "Port")) && DerivesFrom(a[0], IsFieldLoad(PkgAgent+".SocksClient", "Conn"))
-			if ok {
-				c.R.Ok(rule, FuncShort(td), shortCallee(name)+"(client.Conn, …, client.ATYP, client.IpDomain, client.Port)", c.pos(call.Pos()), "the reply echoes what this client asked for, on this client's connection", true)
-			} else {
-				c.R.Bad(rule, FuncShort(td), shortCallee(name)+"(…)", c.pos(call.Pos()), "the SOCKS reply is not built from the connection, address type, address and port stored for that client")
-			}
-		})
+		for _, tdf := range HelperClosure(td, 1) {
+			tdf := tdf
+			EachCall(tdf, func(call ssa.CallInstruction) {
+				name := CalleeName(call)
+				if name != "Havoc/pkg/socks.SendConnectSuccess" && name != "Havoc/pkg/socks.SendConnectFailure" {
+					return
+				}
+				n++
+				a := call.Common().Args
+				k := len(a)
+				ok := DerivesFrom(a[k-3], IsFieldLoad(PkgAgent+".SocksClient", "ATYP")) && DerivesFrom(a[k-2], IsFieldLoad(PkgAgent+".SocksClient", "IpDomain")) && DerivesFrom(a[k-1], IsFieldLoad(PkgAgent+".SocksClient", "Port")) && DerivesFrom(a[0], IsFieldLoad(PkgAgent+".SocksClient", "Conn"))
+				if ok {
+					c.R.Ok(rule, FuncShort(td), shortCallee(name)+"(client.Conn, …, client.ATYP, client.IpDomain, client.Port)", c.pos(call.Pos()), "the reply echoes what this client asked for, on this client's connection", true)
+				} else {
+					c.R.Bad(rule, FuncShort(td), shortCallee(name)+"(…)", c.pos(call.Pos()), "the SOCKS reply is not built from the connection, address type, address and port stored for that client")
+				}
+			})
+		}
 		if n == 0 {
 			c.R.Anchor(rule, "SendConnectSuccess/Failure calls in TaskDispatch")
 		}
